@@ -1,4 +1,6 @@
 (* C07 — A no-repeat mapping never leaves a repeatable key held.  Statements only. *)
+From TM Require ModifierSpec SpecTables.
+From TMGen Require Modifiers.
 From TM Require Import Base Mapper Monitors Trace MapperInv MapperProps MapperFire MapperNoRepeat.
 
 (* For EVERY accepted layout and EVERY history h: if the mapper acts on a press
@@ -28,6 +30,15 @@ Theorem C07_releases_only_release :
     end.
 Proof. exact release_never_presses. Qed.
 Print Assumptions C07_releases_only_release.
+
+(* "Modifier" in this property means one of the eight standard modifiers
+   (SpecTables.spec_modifier_keys: left/right Shift, Ctrl, Alt, Meta): the
+   classification the code uses (is_action_key, regenerated from /repo on every
+   run) is exactly that one.  (The theorems above hold for every classification.) *)
+Theorem C07_modifiers_are_the_standard_ones :
+  forall k : N, TMGen.Modifiers.is_action_key k = negb (SpecTables.spec_is_modifier k).
+Proof. exact ModifierSpec.is_action_key_is_spec. Qed.
+Print Assumptions C07_modifiers_are_the_standard_ones.
 
 (* Non-vacuity: SEMICOLON -> S with a Special repeat; SPACE is held and passed
    through; pressing SEMICOLON fires the mapping, presses S and lifts both. *)
